@@ -149,12 +149,16 @@ def call(kind, obj, x, doc, wrap, ns):
     if kind in ("filter", "combo"):
         return list(obj.filter(target).result), None
     if kind == "select":
-        got = obj.get_data(target, return_paths=True)
+        got = raw = obj.get_data(target, return_paths=True)
         if not x.parts:
             got = [got]
         elif model.is_concrete(x.parts):
             got = [] if got is None else [got]
-        return [(exact(v), tuple(exact(k) for k in p)) for v, p in got], None
+        ans = [(exact(v), tuple(exact(k) for k in p)) for v, p in got]
+        if isinstance(raw, list):
+            # the result list is the caller's: it is extended in place (`found += ...`), which must not show anywhere
+            raw.append(("<caller's own item>", ("<caller>",)))
+        return ans, None
     if kind == "rule":
         rt = obj.test(target)
         return None, rt
